@@ -452,3 +452,11 @@ pub(crate) fn into_locate(s: Span) -> Locate {
         len: s.fragment().len(),
     }
 }
+
+// Verification hook (only with `--cfg sv_parser_verif`): depths of the two scope stacks.
+#[cfg(sv_parser_verif)]
+pub(crate) fn verif_scope_depths() -> (usize, usize) {
+    let a = IN_DIRECTIVE.with(|x| x.borrow().len());
+    let b = CURRENT_VERSION.with(|x| x.borrow().len());
+    (a, b)
+}
